@@ -28,6 +28,18 @@ var formatNames = map[type1.FileFormat]string{0: "default(nil options)", -1: "de
 type c09case struct {
 	Font   *type1.Font      `json:"font"`
 	Format type1.FileFormat `json:"format"`
+	// Monotonic: the creation time carries a monotonic clock reading, as a
+	// time obtained from time.Now() does (same instant, local zone)
+	Monotonic bool `json:"monotonic,omitempty"`
+}
+
+// withMonotonic returns the same instant as a time derived from time.Now():
+// such a value carries a monotonic clock reading, which time.Time.String()
+// prints and which Format, Equal and the fields do not show.  The instant
+// does not depend on the clock.
+func withMonotonic(tm time.Time) time.Time {
+	now := time.Now()
+	return now.Add(tm.Sub(now))
 }
 
 var tol = t1gen.Tol{
@@ -78,6 +90,11 @@ func roundTrip(f *type1.Font, format type1.FileFormat) string {
 }
 
 func check(c *c09case) string {
+	if c.Monotonic {
+		g := *c.Font
+		g.CreationDate = withMonotonic(c.Font.CreationDate)
+		return roundTrip(&g, c.Format)
+	}
 	return roundTrip(c.Font, c.Format)
 }
 
@@ -138,7 +155,7 @@ func findings(rec *ev.Rec) t1gen.FontOpts {
 func TestP1RoundTrip(t *testing.T) {
 	rec := ev.New("C09", "roundtrip")
 	defer rec.Finish(t)
-	rec.Rule("*type1.Font values: 1-13 glyphs incl. .notdef; names over regular characters (StandardEncoding names, random names incl. bytes >= 0x80, operator-like names); integer advance widths incl. int32 extremes, optional WidthY; 0-3 closed contours of lines/curves (h/v/general shapes) with integer coordinates (incl. charstring-format boundaries) or fractional ones (k/q, 2-3 decimals); even-length stem lists over int16 incl. extremes; encoding absent / standard / standard with unassigned codes / explicit incl. names of absent glyphs; FontInfo strings over all 256 bytes; finite floats incl. 1e21, 5e-324, MaxFloat64; font matrix variants; private values at and away from defaults; creation time zero or any second of years 1-9999 with sub-second part, in UTC, named or unnamed fixed zones incl. non-hour offsets. x 4 formats (a quarter of the fonts also with no options / zero-valued options, i.e. the default format). Oracle: Read(Write(F)) deep-equals F after the property's own normalisation (encoding entries naming absent glyphs -> .notdef, time to the second; coordinates exact when all of a glyph's coordinates are integers, else 0.005). Non-trivial: >= 2 glyphs and >= 1 of {curve, fractional coordinate, stem, escaped string byte, non-standard encoding, non-default private value, non-UTC zone}; distinct by font content and format.")
+	rec.Rule("*type1.Font values: 1-13 glyphs incl. .notdef; names over regular characters (StandardEncoding names, random names incl. bytes >= 0x80, operator-like names); integer advance widths incl. int32 extremes, optional WidthY; 0-3 closed contours of lines/curves (h/v/general shapes) with integer coordinates (incl. charstring-format boundaries) or fractional ones (k/q, 2-3 decimals); even-length stem lists over int16 incl. extremes; encoding absent / standard / standard with unassigned codes / explicit incl. names of absent glyphs; FontInfo strings over all 256 bytes; finite floats incl. 1e21, 5e-324, MaxFloat64; font matrix variants; private values at and away from defaults; creation time zero or any second of years 1-9999 with sub-second part, in UTC, named or unnamed fixed zones incl. non-hour offsets, or - for a quarter of the dates between 1850 and 2200 - as a value derived from time.Now() (same instant, carries a monotonic clock reading). x 4 formats (a quarter of the fonts also with no options / zero-valued options, i.e. the default format). Oracle: Read(Write(F)) deep-equals F after the property's own normalisation (encoding entries naming absent glyphs -> .notdef, time to the second; coordinates exact when all of a glyph's coordinates are integers, else 0.005). Non-trivial: >= 2 glyphs and >= 1 of {curve, fractional coordinate, stem, escaped string byte, non-standard encoding, non-default private value, non-UTC zone}; distinct by font content and format.")
 	opts := findings(rec)
 	ev.SetupRapid(15000, 500000)
 	rapid.Check(t, func(t *rapid.T) {
@@ -162,8 +179,13 @@ func TestP1RoundTrip(t *testing.T) {
 			// the default: no options at all, or options with the zero value
 			fs = append(append([]type1.FileFormat{}, formats...), type1.FileFormat(-rapid.IntRange(0, 1).Draw(t, "whichdefault")))
 		}
+		mono := false
+		if y := f.CreationDate.Year(); !f.CreationDate.IsZero() && y >= 1850 && y <= 2200 && rapid.IntRange(0, 3).Draw(t, "monotonic") == 0 {
+			mono = true
+			rec.Class("creation-time-with-monotonic-reading")
+		}
 		for _, format := range fs {
-			c := &c09case{Font: f, Format: format}
+			c := &c09case{Font: f, Format: format, Monotonic: mono}
 			rec.Eval(1)
 			if nt {
 				rec.NonTrivial(key + formatNames[format])
